@@ -32,7 +32,13 @@ def parse_race_reports(paths):
             func = m.group(1) if m else "unknown"
             func = re.sub(r"\[\.\.\.\]", "", func)
             out.append(dict(func=func, text="WARNING: DATA RACE" + block[:3000]))
-    return out
+    # one report per function is enough, and a handful in total
+    seen, uniq = set(), []
+    for r in out:
+        if r["func"] not in seen and len(uniq) < 6:
+            seen.add(r["func"])
+            uniq.append(r)
+    return uniq
 
 
 def table_conflicts(path):
@@ -85,21 +91,42 @@ def main(argv):
 
     race_prefix = os.path.join(c.work, "race")
     env = dict(os.environ, GORACE="halt_on_error=0 log_path=%s" % race_prefix)
-    if c.replay:
-        rp = json.load(open(c.replay))
+    rp = json.load(open(c.replay)) if c.replay else None
+    if rp and rp.get("case", "").startswith("RUN "):
+        m = re.match(r"RUN seed=(\d+) tier=(\w+)", rp["case"])
+        args = [harness, "c18", "--seed", m.group(1), "--tier", m.group(2), "--out", c.work]
+    elif c.replay:
         rin = os.path.join(c.work, "replay_in.txt")
         with open(rin, "w") as f:
             f.write(rp["case"] + "\n")
         args = [harness, "c18", "--out", c.work, "--replaycase", rin, "--seed", str(c.seed)]
     else:
         args = [harness, "c18", "--seed", str(c.seed), "--tier", c.tier, "--out", c.work]
-    rc, out = vlib.run(args, timeout=3000, env=env)
+    rc, out = vlib.run(args, timeout=1500 if c.thorough else 300, env=env)
     races = parse_race_reports(glob.glob(race_prefix + ".*"))
     if "WARNING: DATA RACE" in out:
         races += parse_race_reports([])  # reports normally go to log_path; stderr only when the log could not be opened
     if rc not in (0, 66) or (rc == 66 and not races):
-        c.violation("C18:harness-run", "harness failed rc=%s: %s" % (rc, out[-600:]),
-                    dict(correspondence="harness run", log=out[-3000:]), no_input=True)
+        # the run died: a Go runtime fatal error (concurrent map access), the watchdog, or a crash
+        run_case = "RUN seed=%d tier=%s" % (c.seed, c.tier)
+        fatal = re.search(r"fatal error: (concurrent map [a-z ]+)", out)
+        frame = re.search(r"^" + re.escape(MOD) + r"(.+)\([^()]*\)\s*$", out, re.M)
+        where = re.sub(r"\[\.\.\.\]", "", frame.group(1)) if frame else "unknown"
+        for r in races:
+            c.violation("C18:data-race:" + r["func"], "the race detector reported a data race in %s (the run then died, rc=%s)" % (r["func"], rc),
+                        dict(case=run_case, race_report=r["text"], function=r["func"]))
+        if fatal:
+            c.violation("C18:concurrent-map-access:" + where, "Go runtime: %s in %s while readers ran concurrently" % (fatal.group(1), where),
+                        dict(case=run_case, log=out[-4000:]))
+        elif rc == 7:
+            c.violation("C18:hang", "the concurrent run did not finish (watchdog); first repository frame: %s" % where, dict(case=run_case, log=out[-4000:]))
+        elif rc == 8:
+            c.violation("C18:memory-blowup", "the concurrent run exhausted memory (watchdog): %s" % out[-300:], dict(case=run_case, log=out[-4000:]))
+        elif not races:
+            c.violation("C18:harness-run", "harness failed rc=%s: %s" % (rc, out[-600:]),
+                        dict(correspondence="harness run", log=out[-3000:]), no_input=True)
+        if not proof_ok and not c.violations:
+            c.violation("C18:proof", "proof obligation no longer checks: %s" % json.dumps(c.proof_broken)[:600], dict(broken=c.proof_broken), no_input=True)
         return c.finish()
     cases = vlib.read_lines(os.path.join(c.work, "cases.txt"))
     impl = vlib.read_lines(os.path.join(c.work, "impl.txt"))
